@@ -191,6 +191,10 @@ class Fixture:
             self.kill_group(p)
             so, se = p.communicate()
             return {"rc": None, "timeout": True, "out": None, "err": [], "stdout": so, "stderr": se}
+        if p.returncode is not None and p.returncode < 0:
+            # killed by a signal the harness did not send (e.g. the kernel's out-of-memory killer): an environment
+            # problem, never a verdict about monorail
+            raise vlib.ToolError("monorail %s was killed by signal %d" % (" ".join(args[:3]), -p.returncode))
         return self._result(p.returncode, so, se)
 
     @staticmethod
